@@ -16,7 +16,7 @@ keys = st.sampled_from(KEYS)
 leaf = st.one_of(st.none(), st.booleans(), st.integers(-2, 9), st.sampled_from(["", "s", "abc", "0"]))
 docs = st.recursive(leaf, lambda c: st.one_of(st.lists(c, max_size=4), st.dictionaries(keys, c, max_size=4)),
                     max_leaves=12)
-BAD_INDEX = ["-", "-1", "01", "+1", " 1", "1 ", "1_0", "1.0", "１", "", "a", "0x1", "1e0", "٠", "00",
+BAD_INDEX = ["-", "-1", "01", "+1", " 1", "1 ", "1\n", "0\n", "\n1", "1\r", "1\t", "1_0", "1.0", "１", "", "a", "0x1", "1e0", "٠", "00",
              "9" * 25, "1" + "0" * 5000, "9" * 4301]
 OPTIONAL = list("~!$&'()*+,;=:@/?-._") + list("abAB019")
 
@@ -137,6 +137,17 @@ class C14(Prop):
                         res.nontrivial = True
                         break
                     n2 = n2[t]
+        # ... and once more: resolving is a pure function of (document, fragment), also the second time round
+        for tokens, node in locations(doc):
+            frag = optr.encode(list(tokens), also)
+            try:
+                again = resolver.resolve_fragment(doc, frag)
+            except Exception as e:
+                res.fail(("positive-again", "raises", impl.tname(e)), "second resolution of fragment %r raised %r" % (frag, e))
+                continue
+            if again is not node:
+                res.fail(("positive-again", "wrong-value"), "second resolution of fragment %r (path %r) returned %s, expected %s" % (
+                    frag, list(tokens), impl.cj(again)[:100], impl.cj(node)[:100]))
         # end-to-end: a schema document whose definitions are the drawn document's subschema-like members
         d = case.get("draft", 7)
         if d != 3:
@@ -171,15 +182,17 @@ class C14(Prop):
                     kind = "scalar-child"
                 break
             res.labels.append("neg:" + kind)
-            try:
-                got = resolver.resolve_fragment(doc, frag)
-            except impl.exceptions.RefResolutionError:
-                continue
-            except Exception as e:
-                res.fail(("negative", "wrong-exception", impl.tname(e)), "fragment %r raised %r" % (frag, e))
-                continue
-            res.fail(("negative", "returns-a-value", kind), "fragment %r (tokens %r) addresses nothing but returned %s" % (
-                frag, tokens, impl.cj(got)[:100]))
+            for attempt in ("first", "second"):
+                try:
+                    got = resolver.resolve_fragment(doc, frag)
+                except impl.exceptions.RefResolutionError:
+                    continue
+                except Exception as e:
+                    res.fail(("negative", "wrong-exception", impl.tname(e)), "fragment %r raised %r (%s attempt)" % (frag, e, attempt))
+                    break
+                res.fail(("negative", "returns-a-value", kind), "fragment %r (tokens %r) addresses nothing but the %s "
+                         "attempt returned %s" % (frag, tokens, attempt, impl.cj(got)[:100]))
+                break
         return res
 
     def end_to_end(self, res, d, doc, also):
